@@ -16,6 +16,22 @@ def rewrite_counter_imports(dst):
             p.write_text(t2)
 
 
+def rewrite_counter_for_create(dst):
+    """C04 suite create: as rewrite_counter_imports, plus `"os"` of internal/counter (file.go, counter.go, the
+    exporter) and internal/mmap through harness/shim/vosc (with Yielding on: every file-system call is a
+    scheduling point).  Import lines only."""
+    rewrite_counter_imports(dst)
+    for p in list((dst / "internal" / "counter").glob("*.go")) + list((dst / "internal" / "mmap").glob("*.go")):
+        if p.name.endswith("_test.go"):
+            continue
+        if p.parent.name == "counter" and p.name not in ("file.go", "counter.go", "zz_verif_fileconc.go"):
+            continue
+        t = p.read_text()
+        t2 = t.replace('\t"os"\n', '\tos "golang.org/x/telemetry/internal/verifh/shim/vosc"\n')
+        if t2 != t:
+            p.write_text(t2)
+
+
 SPEC = {
     "id": "C04",
     "title": "Processes sharing a counter file never corrupt it, even when killed",
@@ -45,6 +61,18 @@ SPEC = {
                    "chain (offset, name, value, next), every written record found by the raw scan, every stray "
                    "non-zero unit; at the end every call's result (cell offset / error class) and mapping length. "
                    "distinct = distinct case lines; all non-trivial (>= 2 processes)"),
+        Suite(name="create", harness="vh_create", runner="create",
+              model_deps=["theories/Model/FileCreate.vo"],
+              quick_n=400, thorough_n=3000, rewrite=rewrite_counter_for_create, tags="verif,verifconc",
+              rule="each case: 2-3 processes open ONE counter file with the real openMapped and record a counter "
+                   "(newCounter + two adds); `os` of internal/counter and internal/mmap goes through the shim vosc with "
+                   "a scheduling point at every file-system call, so the openers race at file-system-call granularity "
+                   "and are killed between any two calls; the file is found absent, empty, header only (a creator "
+                   "killed between its two writes), partially zeroed, two bytes short, or valid; designated: the "
+                   "creator killed after each of its first 0..6 calls followed by a second opener, every 0..5 x 0..5 "
+                   "prefix of two racing creators; after every call of an opener the file length and the presence of "
+                   "the header are compared with Model/FileCreate; at the end: every surviving process has opened the "
+                   "file and its counter is in a well-formed file with the right value. distinct = distinct case lines"),
     ],
     "technique": "Coq inductive invariant (rely/guarantee: shared well-formedness + per-process facts stable under "
                  "every action of every other process) of a transition system at atomic-operation granularity over "
@@ -116,7 +144,7 @@ SPEC = {
         "marker, memmap wrapped to record mappings (harness/inject/internal/counter/zz_verif_conc.go, "
         "zz_verif_fileconc.go)",
     ],
-    "own_objects": ["theories/Props/C04.vo", "theories/Proofs/FileConcShapes.vo", "theories/Proofs/FileConcOracle.vo", "theories/Proofs/FileConcProgress.vo",
+    "own_objects": ["theories/Props/C04.vo", "theories/Proofs/FileCreateFacts.vo", "theories/Model/FileCreate.vo", "theories/Proofs/FileConcShapes.vo", "theories/Proofs/FileConcOracle.vo", "theories/Proofs/FileConcProgress.vo",
                     "theories/Proofs/FileConcInv2.vo", "theories/Proofs/FileConcWitness.vo",
                     "theories/Proofs/FileConcThms.vo", "theories/Proofs/FileConcInv.vo",
                     "theories/Proofs/FileConcBase.vo", "theories/Model/FileConc.vo"],
